@@ -231,6 +231,15 @@ def main(argv=None):
     core.guarded(rep, text, check_model, rep, drv, gen, rng, m_, text, c_, fixed_points=pts)
     rep.case(key=text, nontrivial=True)
     rep.count("directed_equality_models")
+    # directed: powers whose exponent is a parameter with an integer value (a Hill coefficient) and whose base takes either sign
+    text = ("states(x=1, y=2)\nparameters(n=2, h=3)\nq = (x/2)**n + (-y)**h + (x*y)**n\ndx_dt = q - x\ndy_dt = (x - 1)**h/(1 + (x - 1)**n) - y\n")
+    c_ = pipeline.Case(drv, text)
+    m_ = textmodel.model_from_items(c_.captured)
+    pts = [{"t": 0.0, "dt": 0.1, "states": {"x": sx, "y": sy}, "params": {"n": pn_, "h": ph}}
+           for sx in (-2.0, 1.5, 0.0) for sy in (-1.25, 2.0) for pn_, ph in ((2.0, 3.0), (4.0, 1.0), (0.0, 2.0))]
+    core.guarded(rep, text, check_model, rep, drv, gen, rng, m_, text, c_, fixed_points=pts)
+    rep.case(key=text, nontrivial=True)
+    rep.count("directed_power_models")
     for i in range(n):
         kw = {}
         if i % 5 == 1:
